@@ -25,6 +25,9 @@ static size_t acc_count(size_t idx) { return T_COUNT; }
 static const size_t *acc_indices(size_t idx) { return T_IDX; }
 static const double *acc_distances(size_t idx) { return T_DIST; }
 static uint8_t acc_status_of(size_t nidx) { for (int k = 0; k < NB8; ++k) if (T_IDX[k] == nidx) return T_STATUS[k]; return 0; }
+uint8_t nondet_u8(void);
+/* status of the node at (row, col): that of the neighbour with these raster indices, otherwise some other node's status (arbitrary) */
+static uint8_t acc_status_rc(size_t r, size_t c) { for (int k = 0; k < NB8; ++k) if (T_RC[k].first == r && T_RC[k].second == c) return T_STATUS[k]; return nondet_u8(); }
 static struct rcpair acc_unravel(size_t nidx) { for (int k = 0; k < NB8; ++k) if (T_IDX[k] == nidx) return T_RC[k]; struct rcpair z = { 0, 0 }; return z; }
 static size_t acc_ravel(size_t r, size_t c) { return T_FLAT; }
 #endif
@@ -69,9 +72,12 @@ raster_neighbors = Unit(
     pre=MODEL,
     rules=COMMON + [R(r"raster_idx_type n_raster_idx;", "struct rcpair n_raster_idx;", 1),
                     V(r"unravel_idx\(", "acc_unravel("),
-                    V(r"neighbors\[i\] = raster_neighbor\(\{ n_flat_idx,\s*n_raster_idx\.first,\s*n_raster_idx\.second,\s*n_distances\[i\],\s*this->nodes_status\(\)\(n_flat_idx\) \}\);",
-                      "neighbors[i].flatten_idx = n_flat_idx; neighbors[i].row = n_raster_idx.first; neighbors[i].col = n_raster_idx.second; "
-                      "neighbors[i].distance = n_distances[i]; neighbors[i].status = acc_status_of(n_flat_idx);")],
+                    # status look-ups: by flat index, or by (row, col) -- xtensor's operator() with two indices on the 2-D status array
+                    V(r"(?:this->)?nodes_status\(\)\(([^(),]+),\s*([^(),]+)\)", r"acc_status_rc(\1, \2)"),
+                    V(r"(?:this->)?nodes_status\(\)\(([^(),]+)\)", r"acc_status_of(\1)"),
+                    # aggregate initialisation of the neighbour record: five member expressions in declaration order
+                    V(r"neighbors\[i\] = raster_neighbor\(\{\s*([^,{}]+),\s*([^,{}]+),\s*([^,{}]+),\s*([^,{}]+),\s*((?:[^,{}()]|\([^()]*\))+?)\s*\}\);",
+                      r"neighbors[i].flatten_idx = \1; neighbors[i].row = \2; neighbors[i].col = \3; neighbors[i].distance = \4; neighbors[i].status = \5;")],
 )
 
 SETUP = r"""
